@@ -70,6 +70,7 @@ const char *OPN[] = {"set_str", "insert_ch", "insert_str_n", "insert_str", "inse
                      "reserve", "clear", "swap", "at", "find_ch", "find_str", "find", "compare",
                      "compare_str"};
 const size_t HDR = 4, REC = 6;
+unsigned g_alpha_set;    // header byte 0, bits 4-5
 const size_t MAXLEN = 200;      // reference strings never grow beyond this (counted no-op)
 
 // weight profiles (swarm); profile 0 is uniform, so op byte == Op for o < NOPS
@@ -216,10 +217,25 @@ template <class C> struct Interp {
     size_t nops = 0, noops = 0;
     long first_fault_op = -1;
 
+    // five-letter alphabets; the set is chosen by header bits 4-6 (set 0 = the classic one). The others cover what a
+    // signed / unsigned or narrow / wide confusion needs: bytes >= 0x80, the extreme wide values, Latin-1 vs ASCII
     static C alpha(unsigned k)
     {
-        const C A[5] = {(C)'a', (C)'b', (C)'c', (C)0, T::hi()};
-        return A[k % 5];
+        static const unsigned long long SETS[4][5] = {
+            {'a', 'b', 'c', 0, 0},                               // [4] replaced by T::hi()
+            {'a', 0x80, 0xff, 0, 0xc3},
+            {'z', 'u', 0xfc, 0, 'r'},
+            {0x80, 0x81, 0xfe, 0, 0xff},
+        };
+        static const unsigned long long WSETS[4][5] = {
+            {'a', 'b', 'c', 0, 0},
+            {'a', 0x80000000ull, 0xFFFFFFFFull, 0, 0x7fffffffull},
+            {'z', 'u', 0xfc, 0, 0x10FFFF},
+            {0x80, 0xD800, 0xFFFE, 0, 0xFFFF},
+        };
+        unsigned set = g_alpha_set & 3;
+        if (set == 0 && k % 5 == 4) return T::hi();
+        return (C)(sizeof(C) == 1 ? SETS[set][k % 5] : WSETS[set][k % 5]);
     }
     // exact-size harness buffer (overreads are ASan reports)
     static C *mkbuf(const C *src, size_t n)
@@ -743,6 +759,7 @@ void vf_run(const uint8_t *data, size_t len)
     g_fault_seen = false;
     Cursor cur(data, len);
     uint8_t h0 = cur.u8(), h1 = cur.u8(), h2 = cur.u8(), h3 = cur.u8();
+    g_alpha_set = (h0 >> 4) & 3;
     static_assert(HDR == 4, "header: wide/objects, profile, base of S0, base of S1");
     if (h0 & 1) { Interp<wchar_t> in; in.run(cur, h0, h1, h2, h3); }
     else { Interp<char> in; in.run(cur, h0, h1, h2, h3); }
@@ -758,7 +775,7 @@ void vf_gen(Rng &r, std::vector<uint8_t> &out)
 {
     bool c16 = g_prop == "C16";
     uint8_t prof = c16 ? (uint8_t)PROFILE_ALLOC : (uint8_t)(r.byte() % NPROFILES);
-    out.push_back(r.byte());                         // wide / objects
+    out.push_back((uint8_t)((r.byte() & 0x0f) | (r.chance(1, 2) ? 0 : (r.below(4) << 4))));   // wide / objects / alphabet set
     out.push_back(prof);
     out.push_back(r.byte());                         // base of S0
     out.push_back(r.chance(1, 2) ? 0 : r.byte());    // base of S1
